@@ -166,5 +166,9 @@ func implCli(fields []string) string {
 			of, ofexists = hx(b), 1
 		}
 	}
-	return fmt.Sprintf("R exit=%d out=%s errlen=%d stderr=%s ofile=%s ofexists=%d class=cli%d", exit, hx(so.Bytes()), se.Len(), hx(se.Bytes()), of, ofexists, exit)
+	errFlag := 0
+	if se.Len() > 0 {
+		errFlag = 1
+	}
+	return fmt.Sprintf("R exit=%d out=%s err=%d errlen=%d stderr=%s ofile=%s ofexists=%d class=cli%d", exit, hx(so.Bytes()), errFlag, se.Len(), hx(se.Bytes()), of, ofexists, exit)
 }
